@@ -619,7 +619,7 @@ def run(pid, tier, args):
                 for nr, d in outs.items():
                     ngroups += 1
                     if len(set(d.values())) > 1 or "err" in d.values():
-                        v.violation(("a parser for one production (ParserForProduction)" if nr == "production" else "lexer with %s rules before the elided ones" % nr) + ": re-spaced inputs with the same non-elided tokens give %s" % (json.dumps(d)[:300]),
+                        v.violation(("a parser for one production (ParserForProduction)" if nr == "production" else "a parser whose Elide names come from a slice another Build used as well" if nr == "shared-names" else "lexer with %s rules before the elided ones" % nr) + ": re-spaced inputs with the same non-elided tokens give %s" % (json.dumps(d)[:300]),
                                     {"property": pid, "kind": "elide-many", "rules": nr, "outcomes": d})
             v.notes["respacing_groups_checked"] = ngroups
             if ngroups < 50 and not args.replay:
